@@ -3,6 +3,7 @@ _COMMON = [
     'gcc 12 / x86-64 LP64 little-endian; library rebuilt from /repo working tree with -fsanitize=address,undefined',
 ]
 SPEC = dict(
+    lsan=True,
     harness=['h_str.c'],
     # second configuration: counts/capacities near the top of the index type against a ledger allocator (harness/h_huge.c)
     configs=lambda tier: [dict(name='default'), dict(name='huge', harness=['h_huge.c'], hflags=['-DVF_HUGE=6'], nworkers=2)],
